@@ -447,6 +447,3 @@ Proof.
   apply (spec_prefix_stable_gen lots lots2 sched T Hl2 evs evs2 Hev).
 Qed.
 
-Print Assumptions spec_run_no_oof.
-Print Assumptions spec_prefix_stable_gen.
-Print Assumptions spec_prefix_stable.
